@@ -266,3 +266,97 @@ Lemma F25_refuted : gen_debug_match_exact = false ->
 Proof.
   intros G. exists [49; 97], [49]. split; [discriminate|]. simpl. unfold debug_matches. rewrite G. reflexivity.
 Qed.
+
+(** * From op histories (what the harness drives, [run_history]) to filter-level histories (what the theorems speak of).
+    [step] is a composition of the callbacks [fstep] applies; [hist_trace] lists the callbacks a history performs, in
+    order: a callsite's first hit registers it, a span the filter disables is never created, and ops on a span that does
+    not exist reach nobody. *)
+Definition est_of (s : est * list N * list N) : est := fst (fst s).
+Definition op_fevs (e : envf) (s : est * list N * list N) (o : op) : list fev :=
+  let '(st, seen, live) := s in
+  let reg cs m := if existsb (N.eqb cs) seen then [] else [FRegister cs m] in
+  match o with
+  | OSpan tid cs id m vals =>
+      reg cs m ++ (if env_enabled e (fst (reg_if_new e st seen cs m)) tid cs m then [FNewSpan cs id vals] else [])
+  | ORecord id vals => if existsb (N.eqb id) live then [FRecord id vals] else []
+  | OEnter tid id => if existsb (N.eqb id) live then [FEnter tid id] else []
+  | OExit tid id => if existsb (N.eqb id) live then [FExit tid id] else []
+  | OClose id => if existsb (N.eqb id) live then [FClose id] else []
+  | OEvent tid cs m => reg cs m
+  end.
+Fixpoint run_state (e : envf) (s : est * list N * list N) (ops : list op) : est * list N * list N :=
+  match ops with [] => s | o :: r => run_state e (fst (step e s o)) r end.
+Fixpoint hist_trace (e : envf) (s : est * list N * list N) (ops : list op) : list fev :=
+  match ops with [] => [] | o :: r => op_fevs e s o ++ hist_trace e (fst (step e s o)) r end.
+Definition s0 : est * list N * list N := (est0, [], []).
+
+Lemma reg_if_new_est e st seen cs m :
+  fst (reg_if_new e st seen cs m) =
+  fold_left (fstep e) (if existsb (N.eqb cs) seen then [] else [FRegister cs m]) st.
+Proof. unfold reg_if_new. destruct (existsb (N.eqb cs) seen); reflexivity. Qed.
+
+Lemma step_est e s o : est_of (fst (step e s o)) = fold_left (fstep e) (op_fevs e s o) (est_of s).
+Proof.
+  destruct s as [[st seen] live]. unfold est_of. cbn [fst].
+  destruct o as [tid cs id m vals|id vals|tid id|tid id|id|tid cs m]; unfold step, op_fevs.
+  - rewrite fold_left_app. rewrite <- reg_if_new_est.
+    remember (reg_if_new e st seen cs m) as rr eqn:R. destruct rr as [st1 seen1]. simpl fst.
+    destruct (env_enabled e st1 tid cs m); reflexivity.
+  - destruct (existsb (N.eqb id) live); reflexivity.
+  - destruct (existsb (N.eqb id) live); reflexivity.
+  - destruct (existsb (N.eqb id) live); reflexivity.
+  - destruct (existsb (N.eqb id) live); reflexivity.
+  - rewrite <- reg_if_new_est. remember (reg_if_new e st seen cs m) as rr eqn:R. destruct rr as [st1 seen1]. reflexivity.
+Qed.
+
+Lemma run_state_est e : forall ops s,
+  est_of (run_state e s ops) = fold_left (fstep e) (hist_trace e s ops) (est_of s).
+Proof.
+  induction ops as [|o r IH]; intros s; simpl; auto. rewrite IH, fold_left_app. f_equal. apply step_est.
+Qed.
+
+Lemma run_ops_app e : forall a b s, run_ops e s (a ++ b) = run_ops e s a ++ run_ops e (run_state e s a) b.
+Proof.
+  induction a as [|o a IH]; intros b s; simpl; auto. destruct (step e s o) as [s' ob]. simpl. now rewrite IH.
+Qed.
+Lemma hist_trace_app e : forall a b s, hist_trace e s (a ++ b) = hist_trace e s a ++ hist_trace e (run_state e s a) b.
+Proof.
+  induction a as [|o a IH]; intros b s; simpl; auto. now rewrite IH, app_assoc.
+Qed.
+
+(** the answer the harness sees for an event at the end of a history is [env_enabled] in the state the callbacks built *)
+Lemma history_event_obs : forall e ops tid cs m,
+  run_history e (ops ++ [OEvent tid cs m]) =
+  run_history e ops ++ [Some (env_enabled e (frun e (hist_trace e s0 (ops ++ [OEvent tid cs m]))) tid cs m)].
+Proof.
+  intros e ops tid cs m. unfold run_history. fold s0. rewrite run_ops_app. f_equal.
+  rewrite hist_trace_app. unfold frun. rewrite fold_left_app.
+  pose proof (run_state_est e ops s0) as RS. change (est_of s0) with est0 in RS. rewrite <- RS.
+  destruct (run_state e s0 ops) as [[st seen] live]. unfold est_of. simpl fst.
+  simpl run_ops. simpl hist_trace. rewrite app_nil_r. rewrite <- reg_if_new_est.
+  remember (reg_if_new e st seen cs m) as rr eqn:R. destruct rr as [st1 seen1]. reflexivity.
+Qed.
+
+(** C11_scope for the histories the correspondence runs *)
+Theorem scope_history : forall e ops tid cs m,
+  wf_env e -> is_span m = false ->
+  let evs := hist_trace e s0 (ops ++ [OEvent tid cs m]) in
+  well_nested e evs -> quiet e evs ->
+  run_history e (ops ++ [OEvent tid cs m]) =
+  run_history e ops ++ [Some (scope_spec e (arun e evs) tid (m_level m) || enabled_s (e_statics e) m)].
+Proof.
+  intros e ops tid cs m W NS evs WN Q. rewrite history_event_obs. fold evs. now rewrite scope_event.
+Qed.
+
+(** non-vacuity: the F24-free history of the regression corpus, as ops *)
+Definition ex_ops : list op :=
+  [OSpan 0 7 1 (m_span Info) [(b_x, RU64 1)]; OEnter 0 1; OEvent 0 9 (m_event Debug); OExit 0 1].
+Example scope_history_example :
+  well_nested env_x1 (hist_trace env_x1 s0 (ex_ops ++ [OEvent 0 9 (m_event Debug)])) /\
+  quiet env_x1 (hist_trace env_x1 s0 (ex_ops ++ [OEvent 0 9 (m_event Debug)])) /\
+  run_history env_x1 (ex_ops ++ [OEvent 0 9 (m_event Debug)]) = [Some true; None; Some true; None; Some false].
+Proof.
+  split; [|split]; [| |vm_compute; reflexivity].
+  - vm_compute. repeat split; auto. eexists _, _. reflexivity.
+  - vm_compute. repeat split; auto.
+Qed.
